@@ -20,6 +20,25 @@ impl DistanceMatrix<isize> {
     /// C18: the eccentricity of u, the maximum entry of row u
     spec fn row_max(&self, u: int) -> isize { self.row_max_upto(u, self.order as int) }
 
+    /// maximum of the eccentricities of the first k vertices (k >= 1)
+    spec fn ecc_max_upto(&self, k: int) -> isize
+        decreases k,
+    {
+        if k <= 1 { self.row_max(0) } else {
+            let m = self.ecc_max_upto(k - 1);
+            if self.row_max(k - 1) >= m { self.row_max(k - 1) } else { m }
+        }
+    }
+
+    /// C18: the diameter, the maximum eccentricity
+    spec fn ecc_max(&self) -> isize { self.ecc_max_upto(self.order as int) }
+
+    /// rem is the complete sequence of eccentricities
+    spec fn is_ecc_seq(&self, rem: Seq<&isize>) -> bool {
+        &&& rem.len() == self.order
+        &&& forall|u: int| #![trigger rem[u]] 0 <= u < self.order ==> *rem[u] == self.row_max(u)
+    }
+
     /*@fn impl=DistanceMatrix name=eccentricities subst=W=>isize wrap=&chunks,max
     requires
         self.wf(),
@@ -55,12 +74,45 @@ impl DistanceMatrix<isize> {
     ensures
         b == (*e != self.infinity),
     @*/
+
+    /*@fn impl=DistanceMatrix name=diameter subst=W=>isize wrap=max
+    requires
+        self.wf(),
+    ensures
+        *r == self.ecc_max(),
+        forall|u: int| 0 <= u < self.order ==> #[trigger] self.row_max(u) <= *r,
+        exists|u: int| 0 <= u < self.order && #[trigger] self.row_max(u) == *r,
+    @fn_start
+        proof {
+            self.lemma_ecc_max_upto(self.order as int);
+            assert forall|rem: Seq<&isize>, o: Option<&isize>| self.is_ecc_seq(rem) && #[trigger] is_last_max(rem, o)
+                implies o is Some && *o->0 == self.ecc_max() by { self.lemma_diameter(rem, o); }
+        }
+    @*/
 }
 
 /// m is the maximum of the non-empty sequence s
 spec fn seq_is_max(s: Seq<isize>, m: isize) -> bool {
     &&& forall|j: int| 0 <= j < s.len() ==> #[trigger] s[j] <= m
     &&& exists|j: int| 0 <= j < s.len() && #[trigger] s[j] == m
+}
+
+/// what `Iterator::max` returns over a non-empty sequence of `&isize` items is an upper bound and one of the items
+proof fn lemma_last_max_refs(rem: Seq<&isize>, o: Option<&isize>)
+    requires is_last_max(rem, o),
+    ensures
+        rem.len() == 0 ==> o is None,
+        rem.len() > 0 ==> o is Some,
+        forall|j: int| 0 <= j < rem.len() ==> *(#[trigger] rem[j]) <= *o->0,
+        rem.len() > 0 ==> exists|j: int| 0 <= j < rem.len() && *(#[trigger] rem[j]) == *o->0,
+{
+    if rem.len() > 0 {
+        let i = choose|i: int| #[trigger] is_last_max_at(rem, i) && o->0 == rem[i];
+        assert(*rem[i] == *o->0);
+        assert forall|j: int| 0 <= j < rem.len() implies *(#[trigger] rem[j]) <= *o->0 by {
+            assert(!(<isize as vstd::std_specs::cmp::OrdSpec>::cmp_spec(rem[j], rem[i]) is Greater));
+        }
+    }
 }
 
 /// what `Iterator::max` returns over the items of a slice is the maximum of the slice
@@ -70,12 +122,11 @@ broadcast proof fn lemma_last_max(s: Seq<isize>, o: Option<&isize>)
 {
     let rem = s.as_ref();
     assert(rem.len() == s.len());
+    lemma_last_max_refs(rem, o);
     if s.len() > 0 {
-        let i = choose|i: int| #[trigger] is_last_max_at(rem, i) && o->0 == rem[i];
+        let i = choose|j: int| 0 <= j < rem.len() && *(#[trigger] rem[j]) == *o->0;
         assert(s[i] == *o->0);
-        assert forall|j: int| 0 <= j < s.len() implies #[trigger] s[j] <= *o->0 by {
-            assert(!(<isize as vstd::std_specs::cmp::OrdSpec>::cmp_spec(rem[j], rem[i]) is Greater));
-        }
+        assert forall|j: int| 0 <= j < s.len() implies #[trigger] s[j] <= *o->0 by { assert(*rem[j] <= *o->0); }
     }
 }
 
@@ -124,5 +175,39 @@ impl DistanceMatrix<isize> {
         let v = choose|v: int| 0 <= v < self.order && #[trigger] self.at(u, v) == self.row_max(u);
         assert(row[j] == self.at(u, j));
         assert(row[v] == self.at(u, v));
+    }
+
+    /// ecc_max_upto is an upper bound of the first k eccentricities and is attained
+    proof fn lemma_ecc_max_upto(&self, k: int)
+        requires 1 <= k <= self.order,
+        ensures
+            forall|u: int| 0 <= u < k ==> #[trigger] self.row_max(u) <= self.ecc_max_upto(k),
+            exists|u: int| 0 <= u < k && #[trigger] self.row_max(u) == self.ecc_max_upto(k),
+        decreases k,
+    {
+        if k > 1 {
+            self.lemma_ecc_max_upto(k - 1);
+            let w = choose|u: int| 0 <= u < k - 1 && #[trigger] self.row_max(u) == self.ecc_max_upto(k - 1);
+            if self.row_max(k - 1) >= self.ecc_max_upto(k - 1) {
+                assert(self.row_max(k - 1) == self.ecc_max_upto(k));
+            } else {
+                assert(self.row_max(w) == self.ecc_max_upto(k));
+            }
+        } else {
+            assert(self.row_max(0) == self.ecc_max_upto(k));
+        }
+    }
+
+    /// the maximum of the eccentricity sequence is ecc_max()
+    proof fn lemma_diameter(&self, rem: Seq<&isize>, o: Option<&isize>)
+        requires self.wf(), self.is_ecc_seq(rem), is_last_max(rem, o),
+        ensures o is Some, *o->0 == self.ecc_max(),
+    {
+        self.lemma_ecc_max_upto(self.order as int);
+        lemma_last_max_refs(rem, o);
+        let j = choose|j: int| 0 <= j < rem.len() && *(#[trigger] rem[j]) == *o->0;
+        let u = choose|u: int| 0 <= u < self.order && #[trigger] self.row_max(u) == self.ecc_max();
+        assert(*rem[u] <= *o->0);
+        assert(self.row_max(j) <= self.ecc_max());
     }
 }
